@@ -289,9 +289,24 @@ func registerMisc(e *engine) {
 	e.reg("path/filepath.Base", func(fr *frame, fn *ssa.Function, a []value) value { return filepath.Base(a[0].(string)) })
 	// the ledger instantiates its crypto plugin from the genesis config; harnesses
 	// that need ledger-internal crypto install their stub afterwards
-	e.reg("github.com/xuperchain/xupercore/lib/crypto/client.CreateCryptoClient", func(fr *frame, fn *ssa.Function, a []value) value {
+	// a harness may install its contract-level stub in vrt.CryptoClient; the factory functions then hand it out
+	cryptoStub := func(fr *frame) value {
+		if vp := fr.m.eng.prog.ImportedPackage("github.com/xuperchain/xupercore/zzverif/vrt"); vp != nil {
+			if g := vp.Var("CryptoClient"); g != nil {
+				if p := fr.m.globalAddr(g); p != nil {
+					if it, ok := (*p).(iface); ok && it.t != nil {
+						return tuple{it, iface{}}
+					}
+				}
+			}
+		}
 		return tuple{iface{}, iface{}}
-	})
+	}
+	for _, n := range []string{"CreateCryptoClient", "CreateCryptoClientFromJSONPublicKey", "CreateCryptoClientFromJSONPrivateKey"} {
+		e.reg("github.com/xuperchain/xupercore/lib/crypto/client."+n, func(fr *frame, fn *ssa.Function, a []value) value {
+			return cryptoStub(fr)
+		})
+	}
 	// strings.Builder: slot 1 holds the buffer ([]value)
 	sbuf := func(a value) *value { s := structOf(a); return &s[1] }
 	e.reg("(*strings.Builder).Grow", func(fr *frame, fn *ssa.Function, a []value) value { return nil })
